@@ -244,11 +244,22 @@ def make_iter_models(index):
                 raise Unsupported("mem::swap through %r" % (dst,))
         return UNIT
 
+    def m_skip_take(ex, st, args, callee):
+        it, n = _obj(ex, st, args[0]), args[1]
+        if not (isinstance(n, BV) and n.concrete):
+            raise Unsupported("skip/take by a symbolic count")
+        return ListIterM(list(it.items[n.v:]) if callee.endswith("::skip") else list(it.items[:n.v]))
+
     def m_opt_or(ex, st, args, callee, ty):
         return args[0] if args[0].variant == 1 else args[1]
 
     return [
         (rx(r"^Option::<.*>::or$"), m_opt_or),
+        (rx(r"^<(?:std::slice::)?Iter<'_, .*> as Iterator>::rev$"), lambda ex, st, args, callee, ty: ListIterM(list(reversed(_obj(ex, st, args[0]).items)))),
+        (rx(r"^<(?:std::iter::)?Rev<(?:std::slice::)?Iter<'_, .*>> as Iterator>::(skip|take)$"), lambda ex, st, args, callee, ty: m_skip_take(ex, st, args, callee)),
+        (rx(r"^<(?:std::slice::)?Iter<'_, .*> as Iterator>::(skip|take)$"), lambda ex, st, args, callee, ty: m_skip_take(ex, st, args, callee)),
+        (rx(r"^<(?:std::iter::)?(?:Skip|Take|Rev)<.*(?:std::slice::)?Iter<'_, .*>>+ as Iterator>::any::<.*>$"), m_any),
+        (rx(r"^<(?:std::iter::)?(?:Skip|Take|Rev)<.*(?:std::slice::)?Iter<'_, .*>>+ as Iterator>::next$"), m_list_next),
         (rx(r"^<Chars<'_> as Iterator>::rev$"), lambda ex, st, args, callee, ty: VecM(list(reversed(_obj(ex, st, args[0]).items)))),
         (rx(r"^<Rev<Chars<'_>> as Iterator>::collect::<Vec<char>>$"), lambda ex, st, args, callee, ty: VecM(list(_obj(ex, st, args[0]).items))),
         (rx(r"^(?:std|core)::mem::swap::<.*>$"), m_swap),
